@@ -85,6 +85,7 @@ fn class_len(n: usize, min: Option<usize>, max: Option<usize>) -> &'static str {
 
 macro_rules! catalogue {
     (
+        registry = $registry:ident, surface = $surface:ident;
         $(
             #[nutype( $($attr:tt)* )]
             struct $name:ident ( $($inner:tt)+ );
@@ -98,7 +99,7 @@ macro_rules! catalogue {
             pub struct $name( $($inner)+ );
         )*
 
-        pub fn registry() -> Vec<ArbDecl> {
+        pub fn $registry() -> Vec<ArbDecl> {
             vec![
                 $(
                     ArbDecl {
@@ -128,7 +129,7 @@ macro_rules! catalogue {
 
         // The trait surface C09 presupposes.
         #[allow(dead_code)]
-        fn _assert_surface() {
+        fn $surface() {
             fn a<T: for<'a> Arbitrary<'a>>() {}
             $( a::<$name>(); )*
         }
@@ -182,6 +183,7 @@ fn str_class(repr: &str, min: Option<usize>, max: Option<usize>) -> &'static str
 }
 
 catalogue! {
+    registry = registry, surface = _assert_surface;
     // ------------------------------------------------------------------ integers
     #[nutype(validate(greater_or_equal = 3, less_or_equal = 17), derive(Debug, Arbitrary))]
     struct U8Incl(u8);
@@ -934,8 +936,11 @@ mod questionable {
     }
 }
 
+mod matrix;
+
 pub fn all() -> Vec<ArbDecl> {
     let mut v = registry();
+    v.extend(matrix::registry_matrix());
     v.extend(registry_generic());
     #[cfg(feature = "questionable")]
     v.extend(questionable::registry_questionable());
